@@ -4,7 +4,7 @@
 //! across lines. The [`WordSplitter`] enum defines this
 //! functionality.
 
-use crate::core::{display_width, Word};
+use crate::core::{display_width, skip_ansi_escape_sequence, Word};
 
 /// The `WordSplitter` enum describes where words can be split.
 ///
@@ -133,8 +133,15 @@ impl WordSplitter {
             WordSplitter::NoHyphenation => Vec::new(),
             WordSplitter::HyphenSplitter => {
                 let mut splits = Vec::new();
+                let escape_sequences = escape_sequence_ranges(word);
 
                 for (idx, _) in word.match_indices('-') {
+                    // A hyphen inside an ANSI escape sequence (such as
+                    // the URL of a hyperlink) is not part of the text.
+                    if escape_sequences.iter().any(|range| range.contains(&idx)) {
+                        continue;
+                    }
+
                     // We only use hyphens that are surrounded by alphanumeric
                     // characters. This is to avoid splitting on repeated hyphens,
                     // such as those found in --foo-bar.
@@ -158,6 +165,19 @@ impl WordSplitter {
             }
         }
     }
+}
+
+/// Find the byte ranges covered by ANSI escape sequences in `word`.
+fn escape_sequence_ranges(word: &str) -> Vec<std::ops::Range<usize>> {
+    let mut ranges = Vec::new();
+    let mut char_indices = word.char_indices();
+    while let Some((start, ch)) = char_indices.next() {
+        if skip_ansi_escape_sequence(ch, &mut char_indices.by_ref().map(|(_, ch)| ch)) {
+            let end = char_indices.clone().next().map_or(word.len(), |(idx, _)| idx);
+            ranges.push(start..end);
+        }
+    }
+    ranges
 }
 
 /// Split words into smaller words according to the split points given
